@@ -536,6 +536,19 @@ pub fn gen_dag(rng: &mut Rng, p: &DagParams) -> Dag {
     while d.nodes.len() < n {
         let tips = d.tips();
         let k = d.nodes.len();
+        if k >= 4 && rng.chance(p.merge_pct, 300) {
+            // a merge of two incomparable commands that need not be tips: produces bare merge
+            // commands as heads whose parents lie below other heads' ancestry (nested merge tips)
+            let a = rng.below(k as u64) as usize;
+            let b = rng.below(k as u64) as usize;
+            if a != b && !d.is_anc(a, b) && !d.is_anc(b, a) {
+                let dup = d.nodes.iter().any(|n| n.parents.len() == 2 && ((n.parents[0] == a && n.parents[1] == b) || (n.parents[0] == b && n.parents[1] == a)));
+                if !dup {
+                    d.nodes.push(Node { parents: vec![a, b], prio: Priority::Merge, body: vec![] });
+                    continue;
+                }
+            }
+        }
         if tips.len() >= 2 && rng.chance(p.merge_pct, 100) {
             // merge two tips (antichain by construction), or occasionally any two incomparable nodes
             let a = *rng.pick(&tips);
